@@ -57,6 +57,20 @@ CLAIMED.update({
          "readers between every pair of reducer steps.", "5 C08",
          "Coq history invariant + lockstep schedule replay (engine L) + read monitor"),
 })
+CLAIMED.update({
+ "C04": ("Coq, for every program, thread count, capacity, policy and schedule of the interleaving model: the close "
+         "protocol (nothing is enqueued after close took the sender; the marker is last; the reducer leaves its loop "
+         "with an empty queue), the barrier at the point where the pool join can return (reducer done, queue empty, under "
+         "BlockOnFull enqueued = taken) and finality (a stopped world stays stopped along every continuation: no "
+         "reducer-context callback, effect run, queue traffic, write-back or accepted dispatch is ever added). Partial: "
+         "channeled deliveries after stop and the 3 s timeout are outside the theorem. Engine L constructs the races "
+         "(dispatcher blocked in a full queue while close waits for TX, every backlog, probes that stop waits).",
+         "5 C04", "Coq invariants (close protocol, barrier, finality) + lockstep schedule replay with probes (engine L) + monitor"),
+ "C15": ("In the model dropping a DroppableStore is the stop() step sequence, so the C04 theorems hold verbatim; the "
+         "content is the correspondence: engine L replays schedules with drop(DroppableStore) in place of stop() "
+         "(backlogs, clones used concurrently) and the C04 monitor judges every observed history.", "5 C15",
+         "Coq (C04 theorems instantiated) + lockstep schedule replay with drop (engine L) + monitor"),
+})
 REASON_TODO = "check not built yet in this revision (planned: see DESIGN.md section 5)"
 
 props = [json.loads(l) for l in open(os.path.join(ROOT, "properties.jsonl"))]
